@@ -45,3 +45,50 @@ Theorem restart_equals_online_refuted :
     sort_entries (prpsd_obs (ls_prpsd (st_ls (nd_st (restart nd))))) <>
     sort_entries (prpsd_obs (ls_prpsd (st_ls (nd_st nd)))).
 Proof. exists 5, 1, restart_witness. vm_compute. intro H. discriminate H. Qed.
+
+
+(** * ForceResetHeight (bootLoader.load with resetHeight > 0) *)
+(** Disabled (0): the ordinary restore. *)
+Theorem restore_reset_zero : forall g sv best size self,
+  restore_reset g sv best size self 0 = (restore g sv best size self, sv).
+Proof.
+  intros. unfold restore_reset, restore, reset_prune. destruct sv as [[[p l] lpb]|]; auto.
+  cbn [Z.gtb Z.compare andb].
+  replace (set_prpsd (load g (mkLS p l lpb [] (confirms_required size) self) (k_no best))
+                     (ls_prpsd (load g (mkLS p l lpb [] (confirms_required size) self) (k_no best))))
+    with (load g (mkLS p l lpb [] (confirms_required size) self) (k_no best)).
+  reflexivity.
+  destruct (load g _ _); reflexivity.
+Qed.
+
+(** Enabled: afterwards neither the LIB nor any proposal (Plib or PlibBy) is above the reset
+    height, and the saved status is deleted exactly when the LIB had to be reset. *)
+Theorem restore_reset_bounds : forall g sv best size self rh st sv',
+  0 < rh -> restore_reset g sv best size self rh = (st, sv') ->
+  b_no (ls_lib (st_ls st)) <= rh \/ sv = None /\ ls_lib (st_ls st) = empty_info.
+Proof.
+  intros g sv best size self rh st sv' Hr H. unfold restore_reset in H.
+  destruct sv as [[[p l] lpb]|].
+  - assert (Gt : (rh >? 0) = true) by (apply Z.gtb_lt; lia). rewrite Gt in H. cbn [andb] in H.
+    match type of H with (if ?c then _ else _) = _ => destruct c eqn:E end;
+      apply pair_equal_spec in H; destruct H; subst; cbn [st_ls]; left.
+    + simpl. lia.
+    + rewrite Z.gtb_ltb in E. apply Z.ltb_ge in E. exact E.
+  - apply pair_equal_spec in H. destruct H; subst. right. split; reflexivity.
+Qed.
+
+Theorem restore_reset_proposals_bounded : forall g sv best size self rh st sv',
+  0 < rh -> restore_reset g sv best size self rh = (st, sv') ->
+  Forall (fun kv => b_no (pl_plib (snd kv)) <= rh /\ b_no (pl_by (snd kv)) <= rh) (ls_prpsd (st_ls st)).
+Proof.
+  intros g sv best size self rh st sv' Hr H. unfold restore_reset in H.
+  destruct sv as [[[p l] lpb]|].
+  - assert (Gt : (rh >? 0) = true) by (apply Z.gtb_lt; lia). rewrite Gt in H. cbn [andb] in H.
+    assert (F : forall q, Forall (fun kv => b_no (pl_plib (snd kv)) <= rh /\ b_no (pl_by (snd kv)) <= rh) (reset_prune rh q)).
+    { intros q. unfold reset_prune. rewrite Gt. apply Forall_forall. intros kv I. apply filter_In in I.
+      destruct I as [_ I]. apply negb_true_iff, orb_false_iff in I. destruct I as [A B].
+      rewrite Z.gtb_ltb in A, B. apply Z.ltb_ge in A. apply Z.ltb_ge in B. auto. }
+    match type of H with (if ?c then _ else _) = _ => destruct c end;
+      apply pair_equal_spec in H; destruct H; subst; cbn [st_ls]; simpl; apply F.
+  - apply pair_equal_spec in H. destruct H; subst. simpl. constructor.
+Qed.
